@@ -717,6 +717,16 @@ fn gen_query(rng: &mut Rng, model: &Value, names: &[String]) -> String {
         }
         base = rng.pick(&locs).clone();
     }
+    // one query in four starts at the container with the most children (in a document with one big
+    // array nearly every location is an element of it, and a uniform draw would almost never pick it)
+    if rng.chance(1, 4) {
+        let width = |l: &Loc| -> usize { npath::walk(model, l).map(|v| v.as_array().map(|a| a.len()).or(v.as_object().map(|o| o.len())).unwrap_or(0)).unwrap_or(0) };
+        if let Some(widest) = locs.iter().max_by_key(|l| width(l)) {
+            if width(widest) > 0 {
+                base = widest.clone();
+            }
+        }
+    }
     let fancy = rng.chance(1, 2);
     let mut q = spell_steps(rng, model, &base, fancy);
     let some_name = |rng: &mut Rng| -> String {
@@ -1110,11 +1120,30 @@ pub fn gen_doc(rng: &mut Rng) -> Value {
         let arr: Vec<Value> = (0..n).map(|i| if i % 50 == 7 { json!({"a": i}) } else if i % 9 == 0 { json!([i]) } else { json!(i) }).collect();
         d = if rng.chance(1, 2) { json!({"big": arr, "d": d}) } else { Value::Array(arr) };
     }
-    // now and then: the document under 60-120 levels of nesting, or with a member name of a few thousand bytes
+    // now and then: an array of more than a thousand elements whose length is no round number
+    if rng.chance(1, 500) {
+        let n = *rng.pick(&[1025usize, 1030, 1500, 2049, 2100, 4097]);
+        let arr: Vec<Value> = (0..n).map(|i| if i % 411 == 7 || i + 3 >= n { json!({"a": i, "t": "x"}) } else if i % 97 == 0 { json!([i]) } else { json!(i % 5) }).collect();
+        d = if rng.chance(1, 2) { json!({"rows": arr, "d": d}) } else { Value::Array(arr) };
+    }
+    // now and then: the document under 60-120 (rarely 260-330) levels of nesting, or with a member name
+    // of a few thousand bytes; some of the wrapping arrays have a second element
     if rng.chance(1, 250) {
-        let levels = 60 + rng.below(61);
+        let levels = if rng.chance(1, 4) { 260 + rng.below(71) } else { 60 + rng.below(61) };
         for i in 0..levels {
-            d = if i % 3 == 0 { json!({ "k": d }) } else if i % 3 == 1 { json!([d]) } else { json!({ "": d }) };
+            d = if i % 3 == 0 {
+                json!({ "k": d })
+            } else if i % 3 == 1 {
+                if i % 2 == 0 {
+                    json!([d])
+                } else if i % 4 == 1 {
+                    json!([d, { "k": i }])
+                } else {
+                    json!([[i], d])
+                }
+            } else {
+                json!({ "": d })
+            };
         }
     } else if rng.chance(1, 250) {
         let long = format!("{}{}", rng.pick(gen::NAMES_ADV), "n".repeat(1000 + rng.below(3000)));
@@ -1323,9 +1352,13 @@ fn shrink_value_candidates(v: &Value) -> Vec<Value> {
 
 pub fn minimise(h: &History, class: &str) -> History {
     let mut cur = h.clone();
+    // every candidate is a fresh process: minimisation is bounded by the clock as well (what has been
+    // reached by then is reported; it still fails the same way)
+    let started = std::time::Instant::now();
+    let out_of_time = || started.elapsed().as_secs() > 150;
     // 1. ddmin over the op list
     let mut n = 2usize;
-    while cur.ops.len() >= 2 {
+    while cur.ops.len() >= 2 && !out_of_time() {
         let len = cur.ops.len();
         let chunk = (len + n - 1) / n;
         let mut reduced = false;
@@ -1352,10 +1385,13 @@ pub fn minimise(h: &History, class: &str) -> History {
     // 2. shrink the initial document
     let mut progress = true;
     let mut rounds = 0;
-    while progress && rounds < 200 {
+    while progress && rounds < 200 && !out_of_time() {
         progress = false;
         rounds += 1;
         for cand_doc in shrink_value_candidates(&cur.doc) {
+            if out_of_time() {
+                break;
+            }
             let cand = History { seed: cur.seed, doc: cand_doc, ops: cur.ops.clone(), threads: cur.threads };
             if fails_same(&cand, class).is_some() {
                 cur = cand;
